@@ -220,50 +220,6 @@ def parameter_restricted_stateless_and_rejection_keeps_value(i0: int, i1: int, i
     return assign(p, v2) == assign(fresh, v2)
 ''', "Parameter (restricted): a rejected assignment leaves the stored value unchanged and the verdict does not depend on history"),
 
-    Cond("choice_parameter_rejection_by_any_error_keeps_value", '''
-def choice_parameter_rejection_by_any_error_keeps_value(i0: int, i1: int, i2: int) -> bool:
-    """
-    pre: 0 <= i0 < 3 and 0 <= i1 < 7 and 0 <= i2 < 7
-    post: _
-    """
-    import uuid as _uuid
-    U1, U2 = _uuid.UUID(int=1), _uuid.UUID(int=2)
-    class T1:
-        @staticmethod
-        def default_type_uid():
-            return U1
-    class T2:
-        @staticmethod
-        def default_type_uid():
-            return U2
-    kind = 0
-    if kind == 0:
-        alpha = [None, "a", "b", 1, "q", {"a": 1}, ["a"]]
-        mk = lambda: ValueRestrictedParameter("v", ["a", "b", 1])
-    else:
-        alpha = [None, T1, T2, "a", 3, U1, ["a"]]
-        mk = lambda: TypeUIDRestrictedParameter("o", [str(U1)])     # mesh_type members of a ui.json are text
-    v0, v1, v2 = alpha[[0, 1, 6][i0]], alpha[i1], alpha[i2]
-    def assign(par, v):
-        try:
-            par.value = v
-            return True
-        except Exception:                 # a value refused with any error is a rejected value
-            return False
-    p = mk()
-    assign(p, v0)
-    before = p.value
-    ok1 = assign(p, v1)
-    if not ok1 and p.value is not before:
-        return False                      # a rejected assignment changed the stored value
-    if ok1 and p.value is not v1:
-        return False
-    fresh = mk()
-    return assign(p, v2) == assign(fresh, v2)
-''', "Parameter (choice list / object type restricted): a value refused with ANY error (validation error, or TypeError/AttributeError "
-     "from an enforcer that cannot evaluate it: unhashable values, values without default_type_uid) leaves the stored value unchanged; "
-     "verdicts independent of history"),
-
     Cond("requires_value_blank_group_name", '''
 def requires_value_blank_group_name(gsel: int, osel: int, gopt: bool, gen: bool, oopt: bool, oen: bool, has_opt: bool, en: bool) -> bool:
     """
@@ -582,9 +538,78 @@ class RejectionByAnyError(Scenario):
         return "ok"
 
 
+class ObjectDataPairs(Scenario):
+    """required_object_data: every declared (object, data) pair must be parent and child -- with two pairs and two parents
+    every assignment of objects and data to the four parameters is one explored path"""
+    pid = "C15"
+
+    def body(self, cx):
+        from geoh5py.workspace import Workspace
+        from geoh5py.objects import Points
+        from geoh5py.ui_json.enforcers import RequiredObjectDataEnforcer
+        from geoh5py.shared.exceptions import BaseValidationError
+        ws = Workspace()
+        objs = [Points.create(ws, vertices=_np.zeros((2, 3)), name=f"o{i}") for i in range(2)]
+        data = [objs[0].add_data({"a0": {"values": _np.zeros(2)}}), objs[0].add_data({"a1": {"values": _np.zeros(2)}}),
+                objs[1].add_data({"b0": {"values": _np.zeros(2)}})]
+        o1, o2 = int(cx.int("object_1", 0, 2)), int(cx.int("object_2", 0, 2))
+        d1, d2 = int(cx.int("data_1", 0, 3)), int(cx.int("data_2", 0, 3))
+        npairs = int(cx.int("pairs", 1, 3))
+        value = {"obj1": {"value": objs[o1]}, "dat1": {"value": data[d1]}, "obj2": {"value": objs[o2]}, "dat2": {"value": data[d2]}}
+        pairs = [("obj1", "dat1"), ("obj2", "dat2")][:npairs]
+        exp = all(value[d]["value"].parent is value[o]["value"] for o, d in pairs)
+        enf = RequiredObjectDataEnforcer(pairs)
+        cx.prove(bool(enf.rule(value)) == exp, "rule: true iff every data is a child of its own declared object", "object-data pairs")
+        try:
+            enf.enforce("ui", value)
+            ok = True
+        except BaseValidationError:
+            ok = False
+        cx.prove(ok == exp, "accepted iff every data is a child of its own declared object", "object-data pairs")
+        return "ok"
+
+
+class FormRegister(Scenario):
+    """FormParameter.register with standard members (valid or not) and free-form members: a refused call leaves the form
+    exactly as it was; an accepted call shows every member given"""
+    pid = "C15"
+
+    def body(self, cx):
+        from geoh5py.ui_json.forms import StringFormParameter
+        from geoh5py.shared.exceptions import BaseValidationError
+        std = [("label", "new label", 5), ("enabled", False, "no"), ("optional", True, "maybe"), ("tooltip", "tip", 3),
+               ("dependency_type", "disabled", "sometimes")]
+        i = int(cx.int("standard_member", 0, len(std)))
+        valid = bool(cx.bool("standard_value_valid"))
+        with_extra = bool(cx.bool("with_free_form_member"))
+        j = int(cx.int("second_standard_member", 0, len(std) + 1))      # len(std): none
+        second_valid = bool(cx.bool("second_value_valid"))
+        form = StringFormParameter("p", label="old label", value="v", enabled=True, optional=False)
+        before = dict(form.form())
+        members = {std[i][0]: std[i][1] if valid else std[i][2]}
+        if j < len(std) and j != i:
+            members[std[j][0]] = std[j][1] if second_valid else std[j][2]
+        else:
+            second_valid = True
+        if with_extra:
+            members["units"] = "m"
+        try:
+            form.register(dict(members))
+            ok = True
+        except BaseValidationError:
+            ok = False
+        cx.prove(ok == (valid and second_valid), "register is accepted iff every standard member given is valid", "register")
+        after = dict(form.form())
+        if not ok:
+            cx.prove(after == before, f"a refused register leaves the form unchanged (before {before}, after {after})", "register")
+        else:
+            cx.prove(all(after.get(k) == v for k, v in members.items()), "an accepted register shows every member given", "register")
+        return "ok"
+
+
 def main(tier, seed):
     rc1 = run_property(
-        "C15", [AssociationValidation(), RejectionByAnyError()], tier, seed,
+        "C15", [AssociationValidation(), RejectionByAnyError(), ObjectDataPairs(), FormRegister()], tier, seed,
         assumptions=["association / property-group validators: real in-memory Workspace with a three-level tree; the referenced "
                      "parent, the value (entity or identifier) and the declared group type are symbolic choices, one path each",
                      "restricted parameters (choice list, object type uid, type list): three assignments chosen symbolically from 7-value "
@@ -592,7 +617,7 @@ def main(tier, seed):
         outside=["uuid enforcer on symbolic strings", "longer strings / larger integers / longer call histories"],
         bounds="parents {workspace, group, sub-group, object, other object} x values {groups, object, data, property group, "
                "unrelated object/data, entity of another workspace} x entity/identifier",
-        expected_outcomes={"AssociationValidation": {"ok"}, "RejectionByAnyError": {"ok"}}, jobs=1, validate_max=0,
+        expected_outcomes={"AssociationValidation": {"ok"}, "RejectionByAnyError": {"ok"}, "ObjectDataPairs": {"ok"}, "FormRegister": {"ok"}}, jobs=1, validate_max=0,
     )
     conds = CONDS + ((CONDS_THOROUGH + _thorough_variants()) if tier == "thorough" else [])
     rc2 = run_xh(
